@@ -74,7 +74,7 @@ type c11Case struct {
 }
 
 func (c c11Case) String() string {
-	st := []string{"before the handshake", "after the handshake", "after tunnel create", "after tunnel authorization", "after a refused channel (host unreachable)", "channel open, idle", "channel open, one payload exchanged", "host streaming to the client", "client streaming to the host", "both streaming", "host streaming to a client that does not read (the gateway's writes towards it are blocked)"}[c.stage]
+	st := []string{"before the handshake", "after the handshake", "after tunnel create", "after tunnel authorization", "after a refused channel (host unreachable)", "channel open, idle", "channel open, one payload exchanged", "host streaming to the client", "client streaming to the host", "both streaming", "host streaming to a client that does not read (the gateway's writes towards it are blocked)", "the host went away first, the client kept sending (200 DATA packets)"}[c.stage]
 	ca := map[string]string{"close": "CLOSE_CHANNEL", "order": "out-of-order packet", "frame": "unframeable bytes (length field 3)", "dropws": "TCP end of the websocket", "dropin": "TCP end of the legacy IN connection", "dropout": "TCP end of the legacy OUT connection"}[c.cause]
 	k := "close"
 	if c.reset {
@@ -211,10 +211,19 @@ func runC11Case(gws *gwServer, cs c11Case, host *hostListener, bound time.Durati
 	} else {
 		time.Sleep(5 * time.Millisecond)
 	}
+	if cs.stage == 11 {
+		hc.c.Close()
+		time.Sleep(20 * time.Millisecond)
+		small := mkPacket(tData, bodyData([]byte("after the host left")))
+		for i := 0; i < 200; i++ {
+			send(small)
+		}
+		time.Sleep(20 * time.Millisecond)
+	}
 	stop := make(chan struct{})
 	streamsDone := make(chan struct{}, 2)
 	nstreams := 0
-	if cs.stage >= 6 {
+	if cs.stage >= 6 && cs.stage != 11 {
 		send(mkPacket(tData, bodyData([]byte("hello"))))
 		hc.c.Write([]byte("welcome"))
 		waitFor(2*time.Second, func() bool { return len(hc.received()) >= 5 })
@@ -347,6 +356,11 @@ func runC11Case(gws *gwServer, cs c11Case, host *hostListener, bound time.Durati
 		return n == 0 && protocol.VerifRegistrySize() == 0 && protocol.VerifCacheItems() == 0 &&
 			gaugeValue("rdpgw_websocket_connections") == 0 && gaugeValue("rdpgw_legacy_connections") == 0
 	})
+	o.goroutines, o.gdump = gwGoroutines()
+	o.registry = protocol.VerifRegistrySize()
+	o.cache = protocol.VerifCacheItems()
+	o.wsGauge = gaugeValue("rdpgw_websocket_connections")
+	o.legacyGauge = gaugeValue("rdpgw_legacy_connections")
 	if lateRead {
 		// now the client reads: what is left in the pipe, then the end of stream
 		if ws != nil && !clientEnded["ws"] && !sawEOF(ws.c, ws.br, time.Second) {
@@ -359,11 +373,6 @@ func runC11Case(gws *gwServer, cs c11Case, host *hostListener, bound time.Durati
 			o.clientEOF = false
 		}
 	}
-	o.goroutines, o.gdump = gwGoroutines()
-	o.registry = protocol.VerifRegistrySize()
-	o.cache = protocol.VerifCacheItems()
-	o.wsGauge = gaugeValue("rdpgw_websocket_connections")
-	o.legacyGauge = gaugeValue("rdpgw_legacy_connections")
 	// ---- clean up whatever is left so that the next case starts from nothing
 	if ws != nil {
 		ws.close()
@@ -405,10 +414,12 @@ func runC11(r *Run) {
 		if tr == "legacy" {
 			causes = []string{"close", "order", "frame", "dropin", "dropout"}
 		}
-		for stage := 0; stage <= 10; stage++ {
+		for stage := 0; stage <= 11; stage++ {
 			for _, ca := range causes {
-				if stage == 10 && ca != "dropws" && ca != "dropin" && ca != "dropout" {
-					continue // with the pipe full the other endings need the client to read first
+				if stage == 10 && (ca == "close" || ca == "order") {
+					// these endings are answered with a response packet: with the pipe to the client full the
+					// gateway waits for the client to read (recorded in DESIGN.md as an observation)
+					continue
 				}
 				resets := []bool{false}
 				if strings.HasPrefix(ca, "drop") {
@@ -416,7 +427,9 @@ func runC11(r *Run) {
 				}
 				for _, rs := range resets {
 					polite := []bool{false}
-					if stage >= 5 && r.Thorough() {
+					if stage == 11 {
+						polite = []bool{true}
+					} else if stage >= 5 && r.Thorough() {
 						polite = []bool{false, true}
 					} else if stage >= 5 && (stage+len(ca))%3 == 0 {
 						polite = []bool{true}
